@@ -195,13 +195,15 @@ def selftest(module, good_path, corrupt, expect, name, starts):
     with open(gp, "w") as f:
         for e in ev:
             f.write(json.dumps(e) + "\n")
-    vg = vlib.validate_trace(module, gp, name + "-good")
     bad_ev = corrupt([dict(e) for e in ev])
     bp = os.path.join(wd, "bad.ndjson")
     with open(bp, "w") as f:
         for e in bad_ev:
             f.write(json.dumps(e) + "\n")
-    vb = vlib.validate_trace(module, bp, name + "-bad")
+    with ThreadPoolExecutor(max_workers=2) as ex:
+        fg = ex.submit(vlib.validate_trace, module, gp, name + "-good")
+        fb = ex.submit(vlib.validate_trace, module, bp, name + "-bad")
+        vg, vb = fg.result(), fb.result()
     got = set(b["reason"] for b in vb["bad"])
     shutil.rmtree(wd, ignore_errors=True)
     missing = set(expect) - got
